@@ -8,7 +8,7 @@ import re
 import z3
 
 from .symex import (ACC, Agg, BoolV, Cell, FnItem, Fut, IntV, IterV, MapV, Obj, Opq, Panic, Ref, Str, SymVal, UNINIT, Unsupported, VecV,
-                    copy_val, strip_generics, vec_at, vec_len, map_has, map_at, dbg_of, VAL)
+                    copy_val, strip_generics, vec_at, vec_len, map_has, map_at, dbg_of, display_of, VAL)
 
 
 def mkbox(v, name="box"):
@@ -317,9 +317,9 @@ def fmt_render(ex, arg):
     kind, v = arg.variant, deref_all(ex, arg.fields[0])
     if kind == "display" and isinstance(v, Str):
         return v.t
-    if kind == "debug":
+    if kind in ("debug", "display"):
         try:
-            return dbg_of(ex.to_val(v))
+            return (dbg_of if kind == "debug" else display_of)(ex.to_val(v))
         except Unsupported:
             pass
     raise Unsupported(f"formatting ({kind}) of {v}")
@@ -689,6 +689,12 @@ def call(ex, callee, args):
             model("BTreeMap::insert: binds the key, shadowing an older binding (returned old value not inspected)")
             map_insert(ex, args[0], as_str(ex, args[1]), args[2])
             return Opq("insert-result", None)
+        if last == "entry":
+            model("BTreeMap::entry: Occupied iff the key is bound (newest binding), else Vacant")
+            key = as_str(ex, args[1])
+            lab, r = map_lookup(ex, args[0], key)
+            h = Agg("EntryHandle", None, {0: args[0], 1: key, 2: r if lab == "hit" else Opq("no-slot", None)})
+            return Agg("Entry", "Occupied" if lab == "hit" else "Vacant", {0: h})
         if last == "append":
             model("BTreeMap::append: every binding of `other` is moved into self, replacing equal keys; other is left empty")
             if isinstance(args[0], Ref) and args[0].cell.ro:
@@ -835,6 +841,51 @@ def call(ex, callee, args):
         if isinstance(b, Str):
             return BoolV({"contains": z3.Contains, "starts_with": lambda x, y: z3.PrefixOf(y, x), "ends_with": lambda x, y: z3.SuffixOf(y, x)}[meth2](a.t, b.t))
         raise Unsupported(f"str::{meth2} with a non-string pattern")
+    # ---- BTreeMap entry API
+    if re.search(r"btree_map::(VacantEntry|OccupiedEntry|Entry)::", base) or re.search(r"btree::map::entry::(VacantEntry|OccupiedEntry|Entry)::", base):
+        kind = re.search(r"(VacantEntry|OccupiedEntry|Entry)::(\w+)$", base)
+        if kind:
+            which, meth = kind.group(1), kind.group(2)
+            e = deref_all(ex, args[0])
+            variant = None
+            if isinstance(e, Agg) and e.ty == "Entry":
+                variant = e.variant
+                e = e.fields[0]
+            if not (isinstance(e, Agg) and e.ty == "EntryHandle"):
+                raise Unsupported(f"entry method on {e}")
+            mref, key, slot = e.fields[0], e.fields[1], e.fields[2]
+            model(f"btree_map::{which}::{meth}")
+
+            def do_insert(val):
+                map_insert(ex, mref, key, val)
+                m = deref_all(ex, mref)
+                return Ref(mref.cell, mref.path + (("kv", len(m.layers) - 1),), True)
+            if which == "VacantEntry" and meth == "insert":
+                return do_insert(args[1])
+            if which == "VacantEntry" and meth in ("key", "into_key"):
+                return key
+            if which == "OccupiedEntry" and meth in ("get", "get_mut", "into_mut"):
+                if isinstance(slot, Ref) and slot.cell.ro and meth != "get":
+                    # a binding of the abstract base: materialise it as a newer binding so that it can be written
+                    return do_insert(copy_val(ex.read_ref(slot)))
+                return slot
+            if which == "OccupiedEntry" and meth == "insert":
+                old = copy_val(ex.read_ref(slot))
+                do_insert(args[1])
+                return old
+            if which == "OccupiedEntry" and meth == "key":
+                return key
+            if which == "Entry" and meth in ("or_insert", "or_insert_with", "or_default", "or_insert_with_key"):
+                if variant == "Occupied":
+                    if isinstance(slot, Ref) and slot.cell.ro:
+                        return do_insert(copy_val(ex.read_ref(slot)))
+                    return slot
+                if meth == "or_insert":
+                    return do_insert(args[1])
+                if meth == "or_insert_with":
+                    return do_insert(ex.call_closure(args[1], []))
+                raise Unsupported(f"Entry::{meth}")
+        return NotImplemented
     # ---- strings
     if base in ("std::string::String::new",):
         return Str("")
